@@ -602,7 +602,7 @@ def handle(job: dict) -> dict:
             res["plan_error"] = f"{type(ex).__name__}: {ex}\n{traceback.format_exc()[-1200:]}"
         res["actions"] = acts
     if acts and pkgdir is not None and pkgdir.exists():
-        res["sandbox"] = SANDBOX.call({"root": str(pkgdir.parent), "pkg": pkgdir.name, "actions": acts}, timeout=float(job.get("sandbox_timeout", 90)), fresh=bool(job.get("fresh_sandbox")))
+        res["sandbox"] = SANDBOX.call({"root": str(pkgdir.parent), "pkg": pkgdir.name, "actions": acts, "gencov": bool(job.get("gencov"))}, timeout=float(job.get("sandbox_timeout", 90)), fresh=bool(job.get("fresh_sandbox")))
     if not job.get("keep"):
         if not job.get("outdir"):
             shutil.rmtree(outdir, ignore_errors=True)
